@@ -184,6 +184,53 @@ def race_sweep(ctx):
         xvlib.EXTRA_ALL[0] = ''
 
 
+WEAK_KNOWN = {}
+
+
+def weak_programs(q):
+    """(driver, oracle kind of spec/trace/WeakSafe.tla, programs) of the weak-memory executions of the real code"""
+    recl = ['hp3', 'he3', 'ebr0', 'nebr0', 'debra0', 'qsbr', 'lfrc', 'hpd1', 'hed1'] + ([] if q else ['hp1', 'he1', 'ebr1', 'lfrc2'])
+    rp = ['acq0:0,tch0,rst0;swp0:0,swp0:0', 'acq0:0,tch0,cpy0:1,rst0,tch1;swp0:0,swp0:0', 'swp0:0,acq1:1;acqe0:0,tch0,swp1:1']
+    from props import reclaim_common as RC
+    out = [('reclaim', 'reclaim', ['%s;;%s' % (c, p) for c in recl for p in rp if RC.guards_needed(';' + p) <= RC.SLOTTED.get(c, 99)] +
+            ['%s;%s' % (c, RC.DIRECTED[0]) for c in ('hp3', 'he3', 'ebr0', 'nebr0', 'qsbr')])]
+    qr = ['hp3', 'he3', 'ebr0', 'qsbr'] if q else ['hp3', 'he3', 'ebr0', 'nebr0', 'debra0', 'qsbr', 'lfrc']
+    out.append(('queue_ms', 'queue', ['ms/%s/I;push1;push2,pop;pop,push3' % r for r in qr] + ['ms/%s/I;;push1,push2;pop,pop' % r for r in qr]))
+    out.append(('queue_ram', 'queue', ['ram10/%s/I;;push1,push2;pop,pop' % r for r in qr] + ['ram21/%s/P;push1;push2,push3;pop,pop' % r for r in qr[:2]]))
+    out.append(('queue_nik', 'queue', ['nik10/%s/I;push1;push2,pop;pop,push3' % r for r in qr[:3]]))
+    out.append(('queue_kirsch', 'queue', ['kf2/%s/P;push1;push2,pop;pop,push3' % r for r in qr[:3]] + ['bkf2s2/-/P;push1;push2,pop;pop,push3']))
+    out.append(('queue_bounded', 'queue', ['vyu2/-/I;push1;push2,pop;pop,push3', 'vyu2/-/I;;push1,push2,push3;pop,pop', 'nkb2/-/I;push1;push2,pop;pop,push3', 'vyu2/-/I;;push1,wpush2;pop,wpop']))
+    out.append(('deque', 'queue', ['g2;;push1,push2,pop;steal,steal', 'g2;push1;push2,pop,pop;steal', 'g2;push40,steal,push41,steal;push1,push2,push3,pop;steal,steal', 'f2;;push1,push2,pop;steal;steal']))
+    out.append(('seqlock', 'reg', ['s1b16;;store2,store3;load,load', 's2b16;;store2,update10;load,load', 's3b24;;update10,store5;load;load', 's2b12;;store2,store3;load;load']))
+    out.append(('leftright', 'reg', ['lr;;update10,update5;load,load', 'lr;update3;update10;load,load,load', 'lr;;update10;load;load']))
+    out.append(('hm', 'set', ['set/%s;emp1,emp3;emp2,era1;con2,era3' % r for r in qr[:4]] + ['set/%s;emp2;emp1,era2;emp2,con1' % r for r in qr[:2]]))
+    out.append(('vy', 'map', ['vy1iic/%s;;emp2,era2,emp1;get1' % r for r in ('hp3', 'ebr0')] + ['vy1iic/hp3;emp1,emp2;era1,emp3;get2,get3', 'vy128iic/hp3;emp1,emp2,emp3,emp4,emp5;era4,emp6;get5,get4',
+                             'vy8iic/ebr0;emp1;emp2,era1;get2,get1']))
+    return out
+
+
+def weak_sweep(ctx):
+    """W: weak-memory EXECUTIONS of the real code.  xvrt --weak keeps per-location message histories and per-thread views (the operational model of
+       common/Mem.tla) and lets a bounded number of loads per execution return an older message the C++ memory model still allows; every such
+       choice is a recorded decision, so executions replay.  TLC validates the histories against spec/trace/WeakSafe.tla: the memory-model
+       independent part of the properties (conservation, a value found belongs to its key, no torn value, no reader inside a written instance,
+       no access to destroyed objects, no crash / hang / use after free)."""
+    import xvlib
+    q = ctx.quick
+    build(['deque', 'seqlock', 'leftright', 'reclaim', 'queue_ms', 'queue_ram', 'queue_nik', 'queue_bounded', 'queue_kirsch', 'hm', 'vy'])
+    xvlib.EXTRA_ALL[0] = '--weak 2'
+    try:
+        n0 = len(ctx.tv)
+
+        def one(drv, kind, progs):
+            x = explore(ctx, 'weak_%s' % drv, drv, progs, mode='dfs', pb=1 if q else 2, max_exec=1200 if q else 40000, max_steps=6000)
+            add_tv_stats(check_histories(ctx, x['name'], drv, 'WeakSafe', {'Kind': kind}, x, known_preds=WEAK_KNOWN.get(drv, ())), [x])
+        run_parallel([lambda d=d, k=k, p=p: one(d, k, p) for d, k, p in weak_programs(q)], maxw=6)
+        log('  W weak-memory executions: %d explorations validated' % (len(ctx.tv) - n0))
+    finally:
+        xvlib.EXTRA_ALL[0] = ''
+
+
 def run(ctx):
     build(['deque', 'seqlock', 'leftright', 'queue_bounded'])
     q = ctx.quick
@@ -419,11 +466,34 @@ def run(ctx):
             jobs.append(lambda: tlc_mc(ctx, 'ra_epochbased_reader_stays', 'EpochBased_RA', eb_ra, invariants=INV_R, view='mcview', constraints=['MsgB'], workers=8, tmo=3000, heap='24g',
                                        extra_files={'EpochBased_RA.tla': ord_module('EpochBased', tabb, STAYS)[0]}))
 
+    def _sec_10():
+        # ---------------- vyukov_hash_map bucket: lock-free reader against writer stores.  Real-time order means nothing between unsynchronized
+        # threads, so the weak run checks HbRegular (a read answers with the content after SOME writer operation not older than what the reader
+        # had already seen of the bucket state; a value never belongs to another key).  The fences of the repaired tree (fix: C03-vyukov-key-value-tear)
+        # are taken from the tree by call site; absent fences are modelled as absent.
+        build(['vy'])
+        from props import vy_models as VYM
+        VM = 'vyukov_hash_map::'
+        vy_sites = {'w_fence': ('fence', VM + 'lock_bucket', 0), 'r_fence': ('fence', VM + 'try_get_value', 0), 'r_st': ('ld', VM + 'try_get_value', 0)}
+        tabv, missv = site_orders(ctx, 'VyukovMap', 'vy', ['vy1iic/hp3;emp1,emp2;era1,emp3;get2,get3'], vy_sites)
+        for lab in missv:
+            if lab.endswith('fence'):
+                tabv[lab] = {'none'}
+        tabs_all['VyukovMap'] = tabv; bind['VyukovMap'] = (0, 1)        # three labels only: a counterexample of this run is a warning; W below runs the real code
+        vm_ra = VYM.vm_consts(Weak=True, Ord='<-OrdX', MaxWrites=3, MaxReads=1, NKeys=3, B=2, P=1)
+        INV_VM = ['HbRegular', 'NoDataRace']
+        jobs.append(lambda: tlc_mc(ctx, 'ra_vyukovmap', 'VyukovMap_RA', vm_ra, invariants=INV_VM, view='mcview', constraints=['MsgBound6'], workers=6, tmo=1200,
+                                   extra_files={'VyukovMap_RA.tla': ord_module('VyukovMap', tabv)[0]}))
+        for nm, chg in (('no_writer_fence', {'w_fence': 'none'}), ('no_reader_fence', {'r_fence': 'none'})):
+            jobs.append(lambda nm=nm, chg=chg: tlc_mc(ctx, 'ra_toggle_vyukovmap_' + nm, 'VyukovMap_RA', vm_ra, invariants=INV_VM, view='mcview', constraints=['MsgBound6'], workers=4,
+                                                        expect='violation', tmo=1200, extra_files={'VyukovMap_RA.tla': toggle_module('VyukovMap', tabv, chg)}))
+
     # the sections (binding + order extraction of one spec each) are independent: they run side by side, then all model runs
-    run_parallel([_sec_0, _sec_1, _sec_2, _sec_3, _sec_4, _sec_5, _sec_6, _sec_7, _sec_8, _sec_9], maxw=6)
+    run_parallel([_sec_0, _sec_1, _sec_2, _sec_3, _sec_4, _sec_5, _sec_6, _sec_7, _sec_8, _sec_9, _sec_10], maxw=6)
     tab = tabs_all['ChaseLev']
     run_parallel(jobs, maxw=4)
     race_sweep(ctx)
+    weak_sweep(ctx)
     # A counterexample of the weak-memory model instantiated with the order table EXTRACTED from this tree is reported if the step-level
     # binding of that spec accepted every real execution in this run (the model then mirrors the code on the steps involved).
     bound_ok = {sp: (acc == tot and tot > 0) for sp, (acc, tot) in bind.items()}
